@@ -583,14 +583,15 @@ func (d *DistKeyGenerator) ProcessResponses(bundles []*ResponseBundle) (
 	jb *JustificationBundle,
 	err error) {
 
-	if !d.canReceive && d.state != DealPhase {
-		// if we are a old node that will leave
+	if !d.canReceive && d.state != DealPhase && d.state != ResponsePhase {
+		// if we are a old node that will leave: it has no deals to process, so
+		// it may still be in the deal phase, or already moved on by ProcessDeals
 		err = &PhaseError{
 			DealPhase,
 			d.state,
 		}
 		return nil, nil, err
-	} else if d.state != ResponsePhase {
+	} else if d.canReceive && d.state != ResponsePhase {
 		err = &PhaseError{
 			ResponsePhase,
 			d.state,
@@ -617,8 +618,9 @@ func (d *DistKeyGenerator) ProcessResponses(bundles []*ResponseBundle) (
 		if bundle == nil {
 			continue
 		}
-		if d.canIssue && bundle.ShareIndex == d.nidx {
+		if d.canIssue && d.canReceive && bundle.ShareIndex == d.nidx {
 			// just in case we don't treat our own response
+			// (a leaving node has no index in the new group: its nidx is the zero value)
 			continue
 		}
 		if !isIndexIncluded(d.c.NewNodes, bundle.ShareIndex) {
